@@ -946,6 +946,21 @@ impl<V: PoseidonVariant, F: Field + Send + Sync + 'static> NonPrimitiveExecutor<
 
         // Gather all auxiliary data needed to assemble the pre-permutation state.
         let private_inputs = self.resolve_private_data(ctx)?;
+        // An arity-2 Merkle row hashes the running digest with a sibling. The sibling limbs come
+        // from the private payload or from witness-exposed input slots; with neither the row
+        // would silently hash an all-zero sibling, i.e. succeed from data that was never supplied.
+        if self.merkle_path && !self.is_arity4() && private_inputs.is_none() {
+            let (rate_ext, width_ext) = (self.config.rate_ext(), self.config.width_ext());
+            if inputs[rate_ext..width_ext].iter().any(|slot| slot.is_empty()) {
+                return Err(CircuitError::IncorrectNonPrimitiveOpPrivateData {
+                    op: self.op_type.clone(),
+                    operation_index: ctx.operation_id(),
+                    expected: "sibling limbs (private data, or witness-exposed input slots)"
+                        .to_string(),
+                    got: "no private data for a Merkle row with unexposed sibling limbs".to_string(),
+                });
+            }
+        }
         let mmcs_bit = self.resolve_mmcs_bit(inputs, ctx)?;
         let mmcs_bit2 = self.resolve_mmcs_bit2(inputs, ctx)?;
         let chain_output = self.get_chain_output(ctx);
